@@ -40,7 +40,9 @@ func fxBools(shape ...int) tensor.Tensor {
 	}
 	return tensor.New(tensor.WithShape(shape...), tensor.WithBacking(d))
 }
-func aI(n string, v int64) *onnx.AttributeProto { return &onnx.AttributeProto{Name: n, I: v, Type: onnx.AttributeProto_INT} }
+func aI(n string, v int64) *onnx.AttributeProto {
+	return &onnx.AttributeProto{Name: n, I: v, Type: onnx.AttributeProto_INT}
+}
 func aIs(n string, v ...int64) *onnx.AttributeProto {
 	return &onnx.AttributeProto{Name: n, Ints: v, Type: onnx.AttributeProto_INTS}
 }
@@ -69,7 +71,7 @@ func fixtures() map[string][]fixture {
 		"Asin": un(fxUnit32), "Acos": un(fxUnit32), "Atan": un(fxF32), "Sinh": un(fxF32), "Cosh": un(fxF32), "Asinh": un(fxF32), "Acosh": un(fxPos32), "Atanh": un(fxUnit32),
 		"Not": un(fxBools), "Add": bin, "Sub": bin, "Mul": bin, "Div": bin, "Equal": bin, "Greater": bin, "GreaterOrEqual": bin, "Less": bin, "LessOrEqual": bin,
 		"And": logic, "Or": logic, "Xor": logic,
-		"PRelu":  {{inputs: func() []tensor.Tensor { return []tensor.Tensor{fxF32(2, 3), fxPos32(3)} }}},
+		"PRelu": {{inputs: func() []tensor.Tensor { return []tensor.Tensor{fxF32(2, 3), fxPos32(3)} }}},
 		"ArgMax": {{attrs: []*onnx.AttributeProto{aI("axis", 1)}, inputs: func() []tensor.Tensor { return []tensor.Tensor{fxF32(2, 3)} }},
 			{attrs: []*onnx.AttributeProto{aI("axis", 0), aI("keepdims", 0)}, inputs: func() []tensor.Tensor { return []tensor.Tensor{fxF32(2, 3)} }}},
 		"ReduceMax":  {{attrs: []*onnx.AttributeProto{aIs("axes", 1)}, inputs: func() []tensor.Tensor { return []tensor.Tensor{fxF32(2, 3)} }}},
@@ -102,13 +104,14 @@ func fixtures() map[string][]fixture {
 		"Scaler":          {{attrs: []*onnx.AttributeProto{aFs("offset", 1, 2, 3), aFs("scale", 2, 2, 2)}, inputs: func() []tensor.Tensor { return []tensor.Tensor{fxF32(2, 3)} }}},
 		"MatMul": {{inputs: func() []tensor.Tensor { return []tensor.Tensor{fxF32(2, 3), fxF32(3, 2)} }}, {inputs: func() []tensor.Tensor { return []tensor.Tensor{fxF32(2, 2, 3), fxF32(3)} }},
 			{inputs: func() []tensor.Tensor { return []tensor.Tensor{fxF32(3), fxF32(2, 3, 2)} }}},
-		"Reshape":   {{inputs: func() []tensor.Tensor { return []tensor.Tensor{fxF32(2, 3), fxI64(3, -1)} }}},
-		"Shape":     un(fxF32),
-		"Slice":     {{inputs: func() []tensor.Tensor { return []tensor.Tensor{fxF32(3, 4), fxI64(0, 1), fxI64(2, 3), fxI64(0, 1), fxI64(1, 1)} }}, {inputs: func() []tensor.Tensor { return []tensor.Tensor{fxF32(3, 4), fxI64(1), fxI64(3)} }}},
+		"Reshape": {{inputs: func() []tensor.Tensor { return []tensor.Tensor{fxF32(2, 3), fxI64(3, -1)} }}},
+		"Shape":   un(fxF32),
+		"Slice": {{inputs: func() []tensor.Tensor {
+			return []tensor.Tensor{fxF32(3, 4), fxI64(0, 1), fxI64(2, 3), fxI64(0, 1), fxI64(1, 1)}
+		}}, {inputs: func() []tensor.Tensor { return []tensor.Tensor{fxF32(3, 4), fxI64(1), fxI64(3)} }}},
 		"Squeeze":   {{inputs: func() []tensor.Tensor { return []tensor.Tensor{fxF32(1, 3, 1), fxI64(0, -1)} }}, {inputs: func() []tensor.Tensor { return []tensor.Tensor{fxF32(1, 3)} }}},
 		"Unsqueeze": {{inputs: func() []tensor.Tensor { return []tensor.Tensor{fxF32(2, 3), fxI64(2, 0)} }}},
 		"Transpose": {{attrs: []*onnx.AttributeProto{aIs("perm", 1, 0)}, inputs: func() []tensor.Tensor { return []tensor.Tensor{fxF32(2, 3)} }}},
 	}
 	return m
 }
-
